@@ -97,15 +97,35 @@ def main : IO Unit := do
 # concrete execution of get-rows: translator self-check + override oracle
 
 
-def probe_points(name, theta):
-    """x (cdf/pdf) and p (icdf) grids for one parameter vector: interior points from the family's own
-    quantiles, plus points on / below / above the support."""
-    cls, _ = sentinel.family(name)
+def ref_ppf(name, theta, ps):
+    """quantiles by the documented parameterisation, straight from scipy (independent of virocon);
+    only used to place the probe points"""
+    t = theta
     with np.errstate(all="ignore"):
-        inst = cls(**theta)
-        ps = np.array([1e-3, 0.01, 0.1, 0.3, 0.5, 0.7, 0.9, 0.99, 0.999999])
-        xin = np.asarray(inst.icdf(ps), dtype=float)
-        lo = float(inst.icdf(0.0))
+        if name == "WeibullDistribution":
+            return sts.weibull_min.ppf(ps, t["beta"], t["gamma"], t["alpha"])
+        if name == "LogNormalDistribution":
+            return sts.lognorm.ppf(ps, t["sigma"], 0, np.exp(t["mu"]))
+        if name == "NormalDistribution":
+            return sts.norm.ppf(ps, t["mu"], t["sigma"])
+        if name == "LogNormalNormFitDistribution":
+            k = 1 + t["sigma_norm"] ** 2 / t["mu_norm"] ** 2
+            return sts.lognorm.ppf(ps, np.sqrt(np.log(k)), 0, t["mu_norm"] / np.sqrt(k))
+        if name == "ExponentiatedWeibullDistribution":
+            return sts.exponweib.ppf(ps, t["delta"], t["beta"], 0, t["alpha"])
+        if name == "GeneralizedGammaDistribution":
+            return sts.gengamma.ppf(ps, t["m"], t["c"], 0, 1 / t["lambda_"])
+        if name == "VonMisesDistribution":
+            return sts.vonmises.ppf(ps, t["kappa"], t["mu"])
+        return SCIPY_SUB[name].ppf(ps, *t.values())
+
+
+def probe_points(name, theta):
+    """x (cdf/pdf) grid for one parameter vector: interior points at fixed quantiles of the documented
+    distribution, plus points on / below / above the support."""
+    ps = np.array([1e-3, 0.01, 0.1, 0.3, 0.5, 0.7, 0.9, 0.99, 0.999999])
+    xin = np.asarray(ref_ppf(name, theta, ps), dtype=float)
+    lo = float(ref_ppf(name, theta, 0.0))
     xin = xin[np.isfinite(xin)]
     span = float(xin[-1] - xin[0]) if len(xin) > 1 else 1.0
     if np.isfinite(lo):
